@@ -31,7 +31,28 @@ def mutOf (kind : String) (k : Nat) : List Nat → List Nat :=
   if kind = "push" then fun v => v ++ [k] else if kind = "set0" then fun v => match v with | [] => [] | _ :: r => k :: r
   else fun v => v.map (· + k)
 
+def spaceOf (s : String) : Space := if s = "R" then .real else if s = "F" then .fourier else .nonspatial
+def spaceTok : Space → String
+  | .real => "R" | .fourier => "F" | .nonspatial => "N"
+def errTok : Err → String
+  | .spaceMismatch => "ERR rejected" | .valueError => "ERR ValueError" | .assertion => "ERR rejected" | .shape => "ERR shape"
+def binOf (s : String) : BinOp := if s = "add" then .add else if s = "sub" then .sub else if s = "mul" then .mul else .div
+def hexs (xs : List String) : Array Float := (xs.map hexToFloat).toArray
+def rhsOf (toks : List String) : Rhs Float :=
+  match toks with
+  | ["obj", k] => .obj k.toNat!
+  | ["scalar", x] => .lit (.scalar (hexToFloat x))
+  | "pp" :: xs => .lit (.perPoint (hexs xs))
+  | "pm" :: xs => .lit (.perMatrix (hexs xs))
+  | "full" :: xs => .lit (.full (hexs xs))
+  | _ => .lit (.scalar 0)
+def mhStep (h : MH Float) (op : MOp Float) : MH Float × String :=
+  match h.step gaussInv op with
+  | .ok h' => (h', "ok")
+  | .error e => (h, errTok e)
+
 structure DState where
+  mh : MH Float := MH.init
   dens : Dens Float := Dens.init 0
   diam : Diam Float := Diam.init 0
   ts : TS (List Nat) := TS.init 0
@@ -80,6 +101,31 @@ def step (s : DState) (toks : List String) : DState × String :=
   | ["vt.unset", v] => ({ s with vt := vtSetUnset s.vtn s.vt v.toNat! }, "ok")
   | ["vt.obs"] =>
       (s, s!"{" ".intercalate ((vtIter s.vtn s.vt).map fun p => s!"{p.1}:{match p.2 with | none => "N" | some v => toString v}")} check {vtCheck s.vtn s.vt}")
+  -- ---------------- C13 MatrixArray objects
+  | ["ma.reset"] => ({ s with mh := MH.init }, "ok")
+  | "ma.new" :: L :: n :: sp :: xs =>
+      let (h, o) := mhStep s.mh (.new ⟨L.toNat!, n.toNat!, spaceOf sp, hexs xs⟩); ({ s with mh := h }, o)
+  | "ma.binop" :: op :: k :: ip :: rest =>
+      let (h, o) := mhStep s.mh (.binop (binOf op) k.toNat! (rhsOf rest) (ip = "1")); ({ s with mh := h }, o)
+  | ["ma.dot", k1, k2, ip] => let (h, o) := mhStep s.mh (.dot k1.toNat! k2.toNat! (ip = "1")); ({ s with mh := h }, o)
+  | ["ma.inv", k, ip] => let (h, o) := mhStep s.mh (.invert k.toNat! (ip = "1")); ({ s with mh := h }, o)
+  | ["ma.copy", k] => let (h, o) := mhStep s.mh (.getCopy k.toNat!); ({ s with mh := h }, o)
+  | "ma.setpair" :: k :: i :: j :: xs =>
+      let (h, o) := mhStep s.mh (.setPair k.toNat! i.toNat! j.toNat! (hexs xs)); ({ s with mh := h }, o)
+  | ["ma.getpair", k, i, j] =>
+      match s.mh.view k.toNat! with
+      | none => (s, "ERR shape")
+      | some A => match A.getPair i.toNat! j.toNat! with
+        | .ok v => (s, fl v.toList)
+        | .error e => (s, errTok e)
+  | ["ma.obs"] =>
+      let h := s.mh
+      let refs := h.objs.map (·.ref)
+      let parts := (List.range h.objs.length).map fun k =>
+        match h.objs[k]?, h.view k with
+        | some o, some A => s!"O{k} {A.length} {A.rank} {spaceTok A.space} a{(refs.idxOf o.ref)} {fl A.data.toList}"
+        | _, _ => s!"O{k} dead"
+      (s, " ".intercalate parts)
   | _ => (s, "bad-op")
 
 partial def loop (h : IO.FS.Stream) (out : IO.FS.Stream) (s : DState) : IO Unit := do
